@@ -1404,9 +1404,10 @@ cdef class NNPSBase:
                                 size_t d_idx, UIntArray nbrs):
         cdef int idx = dst_index*self.narrays + src_index
         if self.use_cache:
-            if self.src_index != src_index \
-                or self.dst_index != dst_index:
-                self.set_context(src_index, dst_index)
+            # Always set the context, as the path without the cache does: the
+            # stored indices start at (0, 0) without any context having been
+            # set, and an update invalidates what an earlier call has set up.
+            self.set_context(src_index, dst_index)
             return self.cache[idx].get_neighbors(src_index, d_idx, nbrs)
         else:
             return self.get_nearest_particles_no_cache(
